@@ -849,8 +849,8 @@ func c15Order(p *core.Prog, r *core.Report) {
 		r.Check(!res.Found, "C15-R5", fname(cs.Fn), fmt.Sprintf("peer told about a close (#%d) is re-scored", nTold), p.Pos(cs.Call.Pos()),
 			"updatePeer(peer) follows on every path", "a peer that may have lost a connection is not re-scored on some path: it keeps a connected peer's score and is preferred over other unconnected peers: "+p.TrailString(res))
 	}
-	if nTold < 2 {
-		r.Errorf("expected at least two sites telling a peer about a closing connection, found %d", nTold)
+	if nTold < 1 {
+		r.Errorf("expected a site telling a peer about a closing connection, found none")
 	}
 	if f := mustFunc(p, r, "", "subChannelMap", "updatePeer"); f != nil {
 		ok := len(core.CallsIn(f, "PeerList.onPeerChange")) == 1
